@@ -750,3 +750,72 @@ def gen_program(rng, tag, nstmts):
         s = g.statement()
         stmts.append(s)
     return stmts, g
+
+
+def gen_scope_program(rng, tag):
+    """programs that are all about name resolution: a few global names re-bound several times, functions defined in
+    between that read them (directly, through other functions, through parameters/where-bindings of the same name),
+    functions re-defined, function values stored before a re-definition — and everything called at the end"""
+    g = Gen(rng, tag)
+    g.globals.append(("vf_s0", STR))
+    stmts = [("let", "vf_s0", ("str", [("lit", "s0")]))]
+    names = [g.fresh("v") for _ in range(rng.randint(1, 3))]
+    fnames = []
+    stored = []
+    for n in names:
+        stmts.append(("let", n, ("num", float(rng.randint(1, 9)))))
+        g.globals.append((n, NUM))
+    for step in range(rng.randint(3, 9)):
+        r = rng.random()
+        if r < 0.35:
+            n = rng.choice(names)
+            e = rng.choice([("num", float(rng.randint(10, 99))), ("bin", "+", ("var", n), ("num", float(rng.randint(1, 9)))),
+                            ("bin", "*", ("var", rng.choice(names)), ("num", 10.0))])
+            if fnames and rng.random() < 0.3:
+                f, np_ = rng.choice(fnames)
+                e = ("call", f, [("var", rng.choice(names))] * np_)
+            stmts.append(("let", n, e))
+            g.globals.append((n, NUM))
+        elif r < 0.85:
+            redefine = fnames and rng.random() < 0.35
+            if redefine:
+                f, np_ = rng.choice(fnames)
+            else:
+                f, np_ = g.fresh("f"), rng.choice([0, 0, 1, 1, 2])
+                fnames.append((f, np_))
+            params = []
+            for i in range(np_):
+                pn = rng.choice(names) if rng.random() < 0.3 and rng.choice(names) not in [p for p, _ in params] else g.fresh("p")
+                if pn in [p for p, _ in params]:
+                    pn = g.fresh("p")
+                params.append((pn, NUM))
+            pool = [("var", n) for n in names] + [("var", p) for p, _ in params]
+            body = rng.choice(pool)
+            for _ in range(rng.randint(0, 2)):
+                body = ("bin", rng.choice(["+", "-", "*"]), body, rng.choice(pool + [("num", float(rng.randint(1, 5)))]))
+            others = [(h, k) for h, k in fnames if h != f]
+            if others and rng.random() < 0.5:
+                h, k = rng.choice(others)
+                body = ("bin", "+", body, ("call", h, [rng.choice(pool)] * k))
+            wheres = []
+            if rng.random() < 0.3:
+                wn = rng.choice(names + [p for p, _ in params]) if rng.random() < 0.6 else g.fresh("w")
+                wheres.append((wn, ("bin", "+", rng.choice(pool), ("num", 1000.0))))
+                body = ("bin", "+", body, ("var", wn))
+            stmts.append(("fn", f, params, NUM, body, wheres, rng.random() < 0.4))
+            g.funcs.append((f, params, NUM, False))
+        elif fnames:
+            f, np_ = rng.choice(fnames)
+            if np_ == 1:
+                v = g.fresh("g")
+                stmts.append(("let", v, ("fnref", f)))
+                stored.append(v)
+                g.globals.append((v, FN([NUM], NUM)))
+        if fnames and rng.random() < 0.5:
+            f, np_ = rng.choice(fnames)
+            stmts.append(("print", ("call", f, [("var", rng.choice(names))] * np_)))
+    # observe everything
+    obs = [("var", n) for n in names] + [("call", f, [("num", float(i + 2))] * k) for i, (f, k) in enumerate(fnames)] + \
+          [("callv", ("var", v), [("num", 7.0)]) for v in stored]
+    stmts.append(("expr", ("list", obs)))
+    return stmts, g
